@@ -258,7 +258,7 @@ class Gen(object):
         target = WIN_ADDR + 0x200 + r.randrange(0, 0x600)
         if r.random() < 0.6:
             target &= ~7
-        form = r.choice(["base", "base", "disp8", "disp32", "sib", "sib", "abs", "rip"])
+        form = r.choice(["base", "base", "disp8", "disp32", "sib", "sib", "abs", "rip", "sibdisp32", "sibnoindex"])
         if self.ia32 and form == "rip":
             form = "abs"
         addr32 = r.random() < 0.12 and form not in ("rip",) and not self.ia32
@@ -266,9 +266,29 @@ class Gen(object):
         amask = 0xFFFFFFFF if addr32 else M64
         info = {"rm": ("mem", target, nbytes), "reg": reg}
         forbidden = set(avoid) | {4}
+        # REX.B is ignored by the CPU when the SIB byte says "no base, disp32" (mod=00, base=101)
+        anyB = 0 if self.ia32 else r.randrange(2)
         if form == "abs":
             body = bytes([((reg & 7) << 3) | 4, 0x25]) + struct.pack("<i", target)
-            return rexR, 0, 0, body, info
+            return rexR, 0, anyB, body, info
+        if form == "sibdisp32":
+            # [index*scale + disp32], no base register
+            index = r.choice([x for x in range(self.nreg) if x not in forbidden])
+            scale = r.randrange(4)
+            iv = r.choice([0, 1, 2, 3, 8, 0x10, 0x20, 0x40])
+            disp = target - (iv << scale)
+            body = bytes([((reg & 7) << 3) | 4, (scale << 6) | ((index & 7) << 3) | 5]) + struct.pack("<i", disp)
+            e.steer.append((index, iv | ((r.getrandbits(32) << 32) if addr32 else 0)))
+            return rexR, (index >> 3) & 1, anyB, body, info
+        if form == "sibnoindex":
+            # [base] / [base+disp8] through a SIB byte with index=100 and REX.X=0 (the only form for rsp/r12 bases)
+            base = r.choice([b for b in range(self.nreg) if b not in forbidden])
+            disp = r.choice([0, 8, -8, 0x7F, -0x80]) if (r.random() < 0.5 or (base & 7) == 5) else None
+            body = bytes([((0 if disp is None else 1) << 6) | ((reg & 7) << 3) | 4, (r.randrange(4) << 6) | (4 << 3) | (base & 7)])
+            if disp is not None:
+                body += struct.pack("<b", disp)
+            e.steer.append((base, ((target - (disp or 0)) & amask) | ((r.getrandbits(32) << 32) if addr32 else 0)))
+            return rexR, 0, (base >> 3) & 1, body, info
         if form == "rip":
             info["rip"] = target
             return rexR, 0, 0, bytes([((reg & 7) << 3) | 5]) + b"RIP!", info     # patched once the length is known
